@@ -14,7 +14,7 @@ from typing import Any, Dict, List, Optional, Tuple
 from ..cfg import cfg_of, Path
 from ..consteval import ConstEval, Unknown
 from ..flow import Sym, Lin, linform, find_calls, fpaths, allfacts
-from ..model import attr_chain, norm, walk_no_nested, FuncInfo
+from ..model import attr_chain, norm, walk_no_nested, FuncInfo, AnalysisError
 from ..report import Checker
 
 RFC6455_GUID = b'258EAFA5-E914-47DA-95CA-C5AB0DC85B11'
@@ -43,6 +43,8 @@ def _fmt_items(fmt: str) -> int:
 def run(ch: Checker) -> None:
     prog = ch.prog
     ce = ConstEval(prog)
+    ch.rule('C16.10', 'there is one encoder: frame bytes are assembled (struct.pack) in WebsocketFrame.build() and the helpers it calls, nowhere else in proxy/http/websocket; '
+                      'every other producer of frames (text(), ...) returns the result of build() on a frame object -- a second encoder must repeat the length classes and the masking rules and can disagree with the first', 2)
     ch.rule('C16.9', 'build() returns the contents of a buffer it created in this call (io.BytesIO() / bytearray() / b\'\'), not of an object kept on the instance: a recycled frame object must not emit bytes of the frame it built before', 1)
     ch.rule('C16.1', 'every struct.pack/unpack in proxy/http/websocket with a literal (or table-driven) format: number of format items = number of values; '
                      'for unpack calcsize(format) = width of the slice passed and number of targets', 5)
@@ -509,6 +511,9 @@ def run(ch: Checker) -> None:
 
 
 # ---------------------------------------------------------------- helpers
+    _one_encoder_check(ch)
+
+
 class _SubstAttrs(ast.NodeTransformer):
     def __init__(self, values: Dict[str, Any]):
         self.values = values
@@ -517,7 +522,6 @@ class _SubstAttrs(ast.NodeTransformer):
         if isinstance(n.value, ast.Name) and n.value.id == 'self' and n.attr in self.values:
             return ast.copy_location(ast.Constant(value=self.values[n.attr]), n)
         return self.generic_visit(n)
-
 
 def _eval_with(e: ast.AST, values: Dict[str, Any], m: Any, ce: ConstEval) -> Any:
     import copy as _copy
@@ -743,3 +747,54 @@ def _table_lookup(fn: FuncInfo, call: ast.Call, prog: Any, ce: ConstEval) -> Opt
                 return None
             table = {k: (v[0].decode() if isinstance(v[0], bytes) else v[0], v[1]) for k, v in val.items()}
     return table
+
+
+def _one_encoder_check(ch: Checker) -> None:
+    prog = ch.prog
+    # ---------------- C16.10 one encoder
+    wf = prog.class_named('WebsocketFrame')
+    build = prog.lookup_method(wf, 'build')
+    if build is None:
+        raise AnalysisError('anchor vanished: WebsocketFrame.build')
+    allowed = {build.key}
+    todo = [build]
+    while todo:                       # helpers build() calls on itself / its class
+        f_ = todo.pop()
+        for c_ in walk_no_nested(f_.node):
+            if isinstance(c_, ast.Call) and isinstance(c_.func, ast.Attribute) and attr_chain(c_.func.value) in ('self', 'cls', 'WebsocketFrame'):
+                g_ = prog.lookup_method(wf, c_.func.attr)
+                if g_ is not None and g_.key not in allowed:
+                    allowed.add(g_.key)
+                    todo.append(g_)
+    n_pack = 0
+    for fn in prog.all_functions('proxy.http.websocket', include_inlined=True):
+        for c_ in walk_no_nested(fn.node):
+            if isinstance(c_, ast.Call) and attr_chain(c_.func) in ('struct.pack', 'struct.pack_into', 'pack', 'pack_into'):
+                n_pack += 1
+                if fn.key not in allowed:
+                    ch.bad('C16.10', fn, c_, '%s assembles frame bytes itself instead of going through build(): a second encoder (its own length classes, its own masking) that can disagree with build() '
+                           'for the boundary lengths 126/127/65536 or for masked frames' % fn.qualname)
+    ch.check(n_pack > 0, 'C16.10', build, 'struct.pack sites', '%d struct.pack call(s), all in build() and its helpers' % n_pack, 'no struct.pack found in the encoder')
+    # every other method of the class that returns bytes of a frame returns <frame>.build()
+    for nm, fn in sorted(wf.methods.items()):
+        if fn.key in allowed or nm in ('parse', 'apply_mask', 'key_to_accept', 'reset', '__init__'):
+            continue
+        rets = [r for r in walk_no_nested(fn.node) if isinstance(r, ast.Return) and r.value is not None]
+        if not rets:
+            continue
+        ann = getattr(fn.node, 'returns', None)
+        if ann is None or norm(ann) != 'bytes':
+            continue
+        g_ = cfg_of(fn, prog, exc_edges=False)
+        bad10 = None
+        for p in fpaths(g_):
+            ch.paths += 1
+            if p.exit_kind != 'return':
+                continue
+            last = p.stmts()[-1]
+            if not isinstance(last[1], ast.Return) or last[1].value is None:
+                continue
+            v = Sym(p).value(last[1].value, last[0])
+            if not (isinstance(v, ast.Call) and isinstance(v.func, ast.Attribute) and v.func.attr == 'build'):
+                bad10 = ('%s() returns %s on a path, not the result of build()' % (nm, norm(v)[:70]), p.describe())
+        ch.check(bad10 is None, 'C16.10', fn, 'returns build()', 'every return value is <frame>.build()', bad10[0] if bad10 else '', witness=bad10[1] if bad10 else None)
